@@ -307,6 +307,9 @@ def check_peer_type_byte(prog, r):
                 for g, l, h in flat_guards(fv, bi, brs):
                     if g[0] == "discr" and g[2] and g[2].endswith("IpAddr") and len(l) == 1 and next(iter(l)) in ("V4", "V6"):
                         seen[next(iter(l))] = (st["rv"]["o"]["k"].get("v"), fv, bi)
+                    if g[0] == "call" and re.search(r"IpAddr::is_ipv(4|6)$", g[1]) and len(l) == 1 and next(iter(l)) in ("true", "false"):
+                        six = g[1].endswith("6") == (next(iter(l)) == "true")
+                        seen["V6" if six else "V4"] = (st["rv"]["o"]["k"].get("v"), fv, bi)
     if set(seen) != {"V4", "V6"}:
         r.unanalysable("encode_table_dump: peer type byte per address family not recognised (%s)" % sorted(seen))
         return
